@@ -1,4 +1,5 @@
 """C07 - Hamming mode returns exactly the equal-length pairs within max_edits mismatches."""
+import collections
 import itertools
 import random
 
@@ -18,7 +19,7 @@ ASSUMPTIONS = ["20-letter amino-acid alphabet (kdtree / hash_based domain)",
 EXHAUSTIVE = {"quick": ["720 orderings of a 6-element 3-length-class list x 4 engines", "all strings len<=4 over AC, k=1..4, 4 engines"],
               "thorough": ["720 orderings x 3 different base lists x 4 engines", "all strings len<=5 over ACD, k=1..3",
                            "all strings len<=4 over AC, k=1..4"]}
-REQUIRE = {"inputs_lengths_not_grouped": 50, "inputs_with_shift_pairs": 5, "inputs_with_unequal_length_lev_close_pairs": 20,
+REQUIRE = {"ham_big_cases": 1, "inputs_lengths_not_grouped": 50, "inputs_with_shift_pairs": 5, "inputs_with_unequal_length_lev_close_pairs": 20,
            "kdtree_calls": 50, "hash_based_calls": 50, "symdel_calls": 50, "cross_cases": 12, "triplets_compared": 1000}
 SHARDS = {"quick": 6, "thorough": 16}
 
@@ -97,7 +98,35 @@ def k_ham_cross(ctx, refs, queries, k):
         S.expect_triplets(ctx, out, exp, "LookupDB.lookup", "hamming-cross")
 
 
-KINDS = {"ham_self": k_ham_self, "ham_cross": k_ham_cross}
+def k_ham_big(ctx, n, np_seed, engines, n_cpu=None, lengths=None):
+    """thousands / tens of thousands of sequences, max_edits = 1: the Hamming neighbours are the equal-length pairs of the
+    large-input Levenshtein oracle (one substitution, or identical)"""
+    rng = random.Random(np_seed)
+    if lengths:
+        # a few length classes of n sequences each (Hamming searches work per length class)
+        seqs = []
+        for L in lengths:
+            roots = ["".join(rng.choice(G.AA) for _ in range(L)) for _ in range(max(1, n // 4))]
+            for _ in range(n):
+                r = list(rng.choice(roots))
+                if rng.random() < 0.5:
+                    r[rng.randrange(L)] = rng.choice(G.AA)
+                seqs.append("".join(r))
+        rng.shuffle(seqs)
+    else:
+        seqs = G.repertoire(rng, n, families=max(1, n // 3))
+    exp = collections.Counter({t: 1 for t in O.neigh_self_k1_big(seqs) if len(seqs[t[0]]) == len(seqs[t[1]])})
+    ctx.count("ham_big_cases")
+    ctx.nontriv(["hbig", n, np_seed])
+    ctx.sample("ham_big", {"n": n, "triplets": sum(exp.values()), "engines": engines})
+    for name in engines:
+        kw = {"n_cpu": n_cpu} if (n_cpu and name == "kdtree") else {}
+        out = ctx.call(S.engine(name), list(seqs), max_edits=1, custom_distance="hamming", **kw)
+        ctx.count(f"{name}_calls")
+        S.expect_triplets(ctx, out, exp, name, "hamming-self-big" + ("-parallel" if kw else ""))
+
+
+KINDS = {"ham_self": k_ham_self, "ham_cross": k_ham_cross, "ham_big": k_ham_big}
 ALL4 = ["symdel", "nearest_neighbor", "hash_based", "kdtree"]
 
 
@@ -124,6 +153,10 @@ def generate(tier, seed):
     long256 = ["C" + "A" * 256 + "F", "C" + "A" * 255 + "G" + "F", "C" + "A" * 256 + "W", "A" * 258, "G" + "A" * 257, "C" + "A" * 255 + "GF"]
     for k in (1, 2):
         yield "ham_self", {"seqs": long256, "k": k, "engines": ["symdel", "nearest_neighbor", "kdtree"] + (["hash_based"] if k == 1 else [])}, True
+    yield "ham_big", {"n": 5000, "np_seed": 7700 + seed, "engines": ["symdel", "kdtree"]}, True
+    yield "ham_big", {"n": 2100, "lengths": [9, 12], "n_cpu": 2, "np_seed": 7702 + seed, "engines": ["kdtree"]}, True
+    if thorough:
+        yield "ham_big", {"n": 47500, "np_seed": 7701 + seed, "engines": ["symdel", "nearest_neighbor"]}, True
     # shift pairs: Levenshtein-close by a shift, Hamming-far
     shifts = ["ACACAC", "CACACA", "ACACA", "CACAC", "AACACA", "ACACAA", "ACAC", "CACA"]
     for k in (1, 2, 3):
